@@ -411,10 +411,6 @@ func (m *c27Model) slotsString() string {
 	return fmt.Sprintf("first=%t/%d %v", m.hasFirst, m.first, ss)
 }
 
-// c27PebblePool keeps in-memory Pebble instances for reuse: opening one costs ~1 ms, which would
-// dominate the run.  An instance is handed out only after an iterator has shown it to be empty.
-var c27PebblePool sync.Pool
-
 func c27PebbleDump(db *database.PebbleDB) ([]byte, [][]byte, error) {
 	it, err := db.NewIterator()
 	if err != nil {
@@ -430,31 +426,10 @@ func c27PebbleDump(db *database.PebbleDB) ([]byte, [][]byte, error) {
 	return b.Bytes(), keys, nil
 }
 
-func c27GetPebble() (*database.PebbleDB, error) {
-	if x := c27PebblePool.Get(); x != nil {
-		db := x.(*database.PebbleDB)
-		if d, _, err := c27PebbleDump(db); err == nil && len(d) == 0 {
-			return db, nil
-		}
-		db.Close()
-	}
-	return database.NewPebble("", true)
-}
-
-func c27PutPebble(db *database.PebbleDB, keys [][]byte) {
-	for _, k := range keys {
-		if err := db.Del(k); err != nil {
-			db.Close()
-			return
-		}
-	}
-	c27PebblePool.Put(db)
-}
-
 // c27Pebble replays the calls on the real in-memory Pebble and compares every result and the final
 // table contents with what the map-backed run produced.
 func c27Pebble(calls []c27Op, wantDump []byte, wantProofs []bool) string {
-	db, err := c27GetPebble()
+	db, err := database.NewPebble("", true) // a fresh instance per replay (reusing cleared instances measured slower)
 	if err != nil {
 		return "cannot open in-memory pebble: " + err.Error()
 	}
@@ -475,7 +450,8 @@ func c27Pebble(calls []c27Op, wantDump []byte, wantProofs []bool) string {
 		db.Close()
 		return "pebble iterator: " + err.Error()
 	}
-	c27PutPebble(db, keys)
+	_ = keys
+	db.Close()
 	if !bytes.Equal(dump, wantDump) {
 		return fmt.Sprintf("pebble table contents differ from the map-backed run after %d calls", len(calls))
 	}
@@ -485,8 +461,10 @@ func c27Pebble(calls []c27Op, wantDump []byte, wantProofs []bool) string {
 func TestVerif_C27(t *testing.T) {
 	r := verifmc.NewReport("C27", "slot-equivocation", "model_checking")
 	defer r.Write()
-	slots := []uint64{5, 6, 1005, 1006, 2006}
-	nows := []uint64{5, 6, 1004, 1005, 1006, 2004, 2005, 2006, 3006}
+	// quick: one pruning round (slots up to 1006, slotNow up to 2006); thorough adds slot 2006 /
+	// slotNow 3006, which reaches a second pruning round from first-saved 1005/1006.
+	slots := verifmc.Pick([]uint64{5, 6, 1005, 1006}, []uint64{5, 6, 1005, 1006, 2006})
+	nows := verifmc.Pick([]uint64{5, 6, 1004, 1005, 1006, 2004, 2005, 2006}, []uint64{5, 6, 1004, 1005, 1006, 2004, 2005, 2006, 3006})
 	nSigners := verifmc.Pick(2, 3)
 	nHeaders := 3
 	depth := verifmc.Pick(4, 5)
